@@ -34,7 +34,7 @@ def line_findings(name, line, addr_header=False):
                 out.append(("F29-tab-inside-word-not-folded", "line %d has %d octets: a word containing TABs is only folded at spaces" % (i, len(ln))))
             elif b"  " in ln or ln.endswith(b" "):
                 out.append(("F7-space-runs-not-folded", "line %d has %d octets with a run of blanks" % (i, len(ln))))
-            elif i == 0:
+            elif i == 0 and b" " not in ln.split(b": ", 1)[-1].strip(b" ") and b"\t" not in ln.split(b": ", 1)[-1]:
                 out.append(("F27-first-word-not-folded", "first line has %d octets (name + first word)" % len(ln)))
             elif addr_header:
                 out.append(("F26-address-list-not-folded", "line %d has %d octets" % (i, len(ln))))
